@@ -295,6 +295,12 @@ static std::string stepLine(State& s, const std::vector<std::string>& w)
             return out;
         }
         if (w[2] == "pending" && w.size() == 3) return showPending(slot);
+        if (w[2] == "reprint" && w.size() == 3) return showPackets(slot.last);
+        if (w[2] == "destroy" && w.size() == 3)
+        {
+            slot.dec.reset(new Decoder);
+            return "ok";
+        }
         return "bad-op";
     }
     std::string extra;
